@@ -187,7 +187,19 @@ pub fn cases(opts: &Opts) -> Vec<Case> {
             name.push_str("+errors");
             predicted = None;
         }
-        out.push(Case { name, files: proj.render(), predicted });
+        let mut files = proj.render();
+        if i % 7 == 3 {
+            // a second file of package Main whose name differs from the entry file only in
+            // letter case (a case-sensitive file system holds both)
+            if let Some(m) = files.get("main.gom").cloned() {
+                let mut t = String::from_utf8_lossy(&m).to_string();
+                t.push_str("\nfn zz_use_twin() -> int32 {\n    zz_twin() + 1\n}\n");
+                files.insert("main.gom".to_string(), t.into_bytes());
+                files.insert("Main.gom".to_string(), b"package Main\n\nfn zz_twin() -> int32 {\n    41\n}\n".to_vec());
+                name.push_str("+case-twin");
+            }
+        }
+        out.push(Case { name, files, predicted });
     }
     out
 }
